@@ -5,6 +5,7 @@ CONSTANTS
  MaxTicket = 12
  MaxStale = 2
  MaxExh = 0
+ MaxReins = 0
  AllowRemove = FALSE
  Dev = {"dup_events"}
 INVARIANTS FairBoundTight
